@@ -406,3 +406,520 @@ Example parsers_ex :
   (* converters (search key, keyword): 1->7, 5->8 (absent), 2->7 (overrides), 2->9 *)
   dict_to_chronon [(1, 10); (2, 20)] [(1, 7); (5, 8); (2, 7); (2, 9)] = [(7, 20); (9, 20)].
 Proof. repeat split. Qed.
+
+(* ================================================================ 4. find_closest_index *)
+Lemma bisect_le_length l t : (bisect_leftZ l t <= length l)%nat.
+Proof. induction l as [|x r IH]; simpl; [lia|]. destruct (x <? t); simpl; lia. Qed.
+
+(* everything before the bisection point is smaller than the item (any list) ... *)
+Lemma bisect_lt l t : forall j, (j < bisect_leftZ l t)%nat -> nth j l 0 < t.
+Proof.
+  induction l as [|x r IH]; simpl; intros j H; [lia|]. destruct (x <? t) eqn:E; [|lia].
+  destruct j as [|j]; [lia|]. apply IH. lia.
+Qed.
+(* ... and on an ascending list everything from the bisection point on is at least the item *)
+Lemma bisect_ge l t : sorted l -> forall j, (bisect_leftZ l t <= j < length l)%nat -> t <= nth j l 0.
+Proof.
+  induction l as [|x r IH]; intros H j Hj; [simpl in Hj; lia|]. destruct H as [H1 H2]. simpl in Hj |- *.
+  destruct (x <? t) eqn:E.
+  - destruct j as [|j]; [lia|]. apply IH; [exact H2|lia].
+  - destruct j as [|j]; [lia|]. assert (x <= nth j r 0) by (apply H1, nth_In; lia). lia.
+Qed.
+Lemma sorted_nth_le l : sorted l -> forall i j, (i <= j < length l)%nat -> nth i l 0 <= nth j l 0.
+Proof.
+  induction l as [|x r IH]; intros H i j Hij; [simpl in Hij; lia|]. destruct H as [H1 H2]. simpl in Hij |- *.
+  destruct i as [|i], j as [|j]; try lia.
+  - apply H1, nth_In. lia.
+  - apply IH; [exact H2|lia].
+Qed.
+
+Lemma index_of_spec x l i : index_of x l = Some i ->
+  nth_error l i = Some x /\ forall j, (j < i)%nat -> nth_error l j <> Some x.
+Proof.
+  revert i. induction l as [|y r IH]; simpl; intros i H; [discriminate|]. destruct (x =? y) eqn:E.
+  - injection H as <-. split; [simpl; f_equal; lia|]. intros j Hj. lia.
+  - destruct (index_of x r) as [i'|]; [|discriminate]. simpl in H. injection H as <-.
+    destruct (IH i' eq_refl) as [Ha Hb]. split; [exact Ha|].
+    intros [|j] Hj; simpl; [intros HH; injection HH as HH; lia|apply Hb; lia].
+Qed.
+Lemma index_of_In x l : In x l -> exists i, index_of x l = Some i.
+Proof.
+  induction l as [|y r IH]; simpl; [tauto|]. intros H. destruct (x =? y) eqn:E; [eexists; reflexivity|].
+  destruct H as [H|H]; [lia|]. destruct (IH H) as [i ->]. eexists. reflexivity.
+Qed.
+
+(* the position chosen in the sorted copy *)
+Definition fci_idx (item : Z) (data : list Z) : nat :=
+  let sorted := sortZ data in
+  let sol := bisect_leftZ sorted item in
+  let n := length data in
+  if Nat.eqb sol n then Nat.pred sol
+  else if Nat.eqb sol 0 then 0%nat
+  else
+    let d1 := Z.abs (- nth sol sorted 0 + item) in
+    let d0 := Z.abs (- nth (Nat.pred sol) sorted 0 + item) in
+    if d1 <=? d0 then sol else Nat.pred sol.
+
+Lemma fci_unfold item data : data <> [] ->
+  find_closest_index item data =
+  match index_of (nth (fci_idx item data) (sortZ data) 0) data with Some i => Ok i | None => Err EValueError end.
+Proof. destruct data; [congruence|reflexivity]. Qed.
+
+Lemma fci_idx_argmin item data : data <> [] ->
+  (fci_idx item data < length (sortZ data))%nat /\
+  forall j, (j < length (sortZ data))%nat ->
+    Z.abs (nth (fci_idx item data) (sortZ data) 0 - item) <= Z.abs (nth j (sortZ data) 0 - item) /\
+    (Z.abs (nth j (sortZ data) 0 - item) = Z.abs (nth (fci_idx item data) (sortZ data) 0 - item) ->
+     nth j (sortZ data) 0 <= nth (fci_idx item data) (sortZ data) 0).
+Proof.
+  intros Hd. unfold fci_idx. rewrite <- (sortZ_length data).
+  assert (Hn : (0 < length (sortZ data))%nat).
+  { rewrite sortZ_length. destruct data; [congruence|simpl; lia]. }
+  pose proof (sortZ_sorted data) as Hs.
+  pose proof (bisect_le_length (sortZ data) item) as Hsol.
+  pose proof (bisect_lt (sortZ data) item) as Hlt.
+  pose proof (bisect_ge (sortZ data) item Hs) as Hge.
+  pose proof (sorted_nth_le (sortZ data) Hs) as Hmono.
+  set (s := sortZ data) in *. set (sol := bisect_leftZ s item) in *. set (n := length s) in *.
+  cbv zeta.
+  destruct (Nat.eqb_spec sol n) as [E1|E1]; [|destruct (Nat.eqb_spec sol 0) as [E2|E2]].
+  - split; [lia|]. intros j Hj.
+    assert (nth j s 0 <= nth (Nat.pred sol) s 0) by (apply Hmono; lia).
+    assert (nth (Nat.pred sol) s 0 < item) by (apply Hlt; lia). lia.
+  - split; [lia|]. intros j Hj.
+    assert (nth 0 s 0 <= nth j s 0) by (apply Hmono; lia).
+    assert (item <= nth 0 s 0) by (apply Hge; lia). lia.
+  - assert (Hp : nth (Nat.pred sol) s 0 < item) by (apply Hlt; lia).
+    assert (Hq : item <= nth sol s 0) by (apply Hge; lia).
+    destruct (Z.leb_spec (Z.abs (- nth sol s 0 + item)) (Z.abs (- nth (Nat.pred sol) s 0 + item))) as [E3|E3].
+    + split; [lia|]. intros j Hj. destruct (lt_dec j sol) as [L|L].
+      * assert (nth j s 0 <= nth (Nat.pred sol) s 0) by (apply Hmono; lia). lia.
+      * assert (nth sol s 0 <= nth j s 0) by (apply Hmono; lia). lia.
+    + split; [lia|]. intros j Hj. destruct (lt_dec j sol) as [L|L].
+      * assert (nth j s 0 <= nth (Nat.pred sol) s 0) by (apply Hmono; lia). lia.
+      * assert (nth sol s 0 <= nth j s 0) by (apply Hmono; lia). lia.
+Qed.
+
+(* the returned position holds an element at minimal distance from the item (unsorted data, duplicates
+   allowed); it is the first position of that value; of two equidistant values the larger one wins *)
+Theorem find_closest_is_argmin item data i : find_closest_index item data = Ok i ->
+  exists x, nth_error data i = Some x /\
+    forall y, In y data -> Z.abs (x - item) <= Z.abs (y - item).
+Proof.
+  intros H. assert (Hd : data <> []) by (intros ->; discriminate).
+  rewrite fci_unfold in H by exact Hd. destruct (fci_idx_argmin item data Hd) as [Hi Hmin].
+  set (x := nth (fci_idx item data) (sortZ data) 0) in *.
+  destruct (index_of x data) as [i'|] eqn:E; [|discriminate]. injection H as ->.
+  exists x. split; [apply index_of_spec in E; tauto|].
+  intros y Hy. apply sortZ_In in Hy. destruct (In_nth _ _ 0 Hy) as [j [Hj <-]]. apply Hmin. exact Hj.
+Qed.
+
+Theorem find_closest_first_occurrence item data i x : find_closest_index item data = Ok i ->
+  nth_error data i = Some x -> forall j, (j < i)%nat -> nth_error data j <> Some x.
+Proof.
+  intros H Hx. assert (Hd : data <> []) by (intros ->; discriminate).
+  rewrite fci_unfold in H by exact Hd.
+  destruct (index_of (nth (fci_idx item data) (sortZ data) 0) data) as [i'|] eqn:E; [|discriminate].
+  injection H as ->. apply index_of_spec in E. destruct E as [E1 E2]. rewrite E1 in Hx. injection Hx as <-. exact E2.
+Qed.
+
+Theorem find_closest_tie_right item data i x : find_closest_index item data = Ok i ->
+  nth_error data i = Some x -> forall y, In y data -> Z.abs (y - item) = Z.abs (x - item) -> y <= x.
+Proof.
+  intros H Hx. assert (Hd : data <> []) by (intros ->; discriminate).
+  rewrite fci_unfold in H by exact Hd. destruct (fci_idx_argmin item data Hd) as [Hi Hmin].
+  destruct (index_of (nth (fci_idx item data) (sortZ data) 0) data) as [i'|] eqn:E; [|discriminate].
+  injection H as ->. apply index_of_spec in E. destruct E as [E1 _]. rewrite E1 in Hx. injection Hx as <-.
+  intros y Hy. apply sortZ_In in Hy. destruct (In_nth _ _ 0 Hy) as [j [Hj <-]]. apply Hmin. exact Hj.
+Qed.
+
+Theorem find_closest_total item data : data <> [] -> exists i, find_closest_index item data = Ok i.
+Proof.
+  intros Hd. rewrite fci_unfold by exact Hd. destruct (fci_idx_argmin item data Hd) as [Hi _].
+  assert (Hin : In (nth (fci_idx item data) (sortZ data) 0) data) by (apply sortZ_In, nth_In; exact Hi).
+  destruct (index_of_In _ _ Hin) as [i ->]. exists i. reflexivity.
+Qed.
+Lemma find_closest_empty item : find_closest_index item [] = Err EIndexError.
+Proof. reflexivity. Qed.
+
+Example find_closest_ex :
+  find_closest_index 5 [9; 3; 7; 3; 1] = Ok 2%nat /\      (* 3 and 7 are equidistant: the larger wins *)
+  find_closest_index 4 [9; 3; 7; 3; 1] = Ok 1%nat /\      (* first occurrence of 3 *)
+  find_closest_index 100 [9; 3; 7] = Ok 0%nat /\ find_closest_index (-100) [9; 3; 7] = Ok 1%nat.
+Proof. repeat split. Qed.
+
+(* ================================================================ 6. nested get / set / delete *)
+(* chained indexing x[i0][i1]...[ik] *)
+Definition child (x : nest) (i : nat) : option nest :=
+  match x with NAtom _ => None | NList l => nth_error l i end.
+Definition chain (path : list nat) (x : nest) : option nest :=
+  fold_left (fun acc i => match acc with Some y => child y i | None => None end) path (Some x).
+
+Lemma chain_none path :
+  fold_left (fun acc i => match acc with Some y => child y i | None => None end) path None = None.
+Proof. induction path; simpl; auto. Qed.
+
+Theorem nget_chain path : forall x y, nget path x = Ok y <-> chain path x = Some y.
+Proof.
+  unfold chain. induction path as [|i r IH]; intros x y; simpl.
+  - split; intros H; injection H as ->; reflexivity.
+  - destruct x as [z|l]; simpl.
+    + rewrite chain_none. split; discriminate.
+    + destruct (nth_error l i) as [c|]; [apply IH|]. rewrite chain_none. split; discriminate.
+Qed.
+(* nget fails exactly when chained indexing fails: with a TypeError at an atom, an IndexError out of range *)
+Corollary nget_err_chain path x : (exists k, nget path x = Err k) <-> chain path x = None.
+Proof.
+  split.
+  - intros [k H]. destruct (chain path x) as [y|] eqn:E; [|reflexivity]. apply nget_chain in E. congruence.
+  - intros H. destruct (nget path x) as [y|k] eqn:E; [|exists k; reflexivity]. apply nget_chain in E. congruence.
+Qed.
+
+Lemma nget_app p q x : nget (p ++ q) x = (y <- nget p x ; nget q y).
+Proof.
+  revert x. induction p as [|i r IH]; intros x; [reflexivity|]. simpl.
+  destruct x as [z|l]; [reflexivity|]. destruct (nth_error l i); [apply IH|reflexivity].
+Qed.
+
+Lemma replace_at_cons {X} i (c a : X) t : replace_at (S i) c (a :: t) = a :: replace_at i c t.
+Proof. reflexivity. Qed.
+Lemma nth_error_replace_same {X} i (c : X) l : (i < length l)%nat -> nth_error (replace_at i c l) i = Some c.
+Proof.
+  revert l. induction i as [|i IH]; intros [|a t] H; simpl in H; try lia; [reflexivity|].
+  rewrite replace_at_cons. cbn [nth_error]. apply IH. lia.
+Qed.
+Lemma nth_error_replace_other {X} i j (c : X) l : (i < length l)%nat -> j <> i ->
+  nth_error (replace_at i c l) j = nth_error l j.
+Proof.
+  revert l j. induction i as [|i IH]; intros [|a t] j H N; simpl in H; try lia.
+  - destruct j as [|j]; [lia|reflexivity].
+  - rewrite replace_at_cons. destruct j as [|j]; [reflexivity|]. cbn [nth_error]. apply IH; lia.
+Qed.
+Lemma replace_at_length {X} i (c : X) l : (i < length l)%nat -> length (replace_at i c l) = length l.
+Proof.
+  intros H. unfold replace_at. rewrite app_length, firstn_length_le by lia. cbn [length]. rewrite skipn_length. lia.
+Qed.
+
+Lemma nset_cons2 b j r item x : nset (b :: j :: r) item x =
+  match x with
+  | NAtom _ => Err ETypeError
+  | NList l => match nth_error l b with
+               | Some c => c' <- nset (j :: r) item c ; Ok (NList (replace_at b c' l))
+               | None => Err EIndexError
+               end
+  end.
+Proof. reflexivity. Qed.
+Lemma ndel_cons2 b j r x : ndel (b :: j :: r) x =
+  match x with
+  | NAtom _ => Err ETypeError
+  | NList l => match nth_error l b with
+               | Some c => c' <- ndel (j :: r) c ; Ok (NList (replace_at b c' l))
+               | None => Err EIndexError
+               end
+  end.
+Proof. reflexivity. Qed.
+
+Lemma nset_cons_inv b p item x x' : nset (b :: p) item x = Ok x' ->
+  exists l c', x = NList l /\ (b < length l)%nat /\ x' = NList (replace_at b c' l) /\
+    ((p = [] /\ c' = item) \/ (p <> [] /\ exists c, nth_error l b = Some c /\ nset p item c = Ok c')).
+Proof.
+  destruct p as [|j r]; [simpl|rewrite nset_cons2]; intros H; destruct x as [z|l]; try discriminate.
+  - destruct (Nat.ltb_spec b (length l)) as [L|L]; [|discriminate]. injection H as <-.
+    exists l, item. repeat split; auto.
+  - destruct (nth_error l b) as [c|] eqn:E; [|discriminate].
+    assert (L : (b < length l)%nat) by (apply nth_error_Some; congruence).
+    destruct (nset (j :: r) item c) as [c'|k] eqn:Ec; [|discriminate]. simpl in H. injection H as <-.
+    exists l, c'. repeat split; auto. right. split; [discriminate|]. exists c. split; [exact E|exact Ec].
+Qed.
+
+(* two paths diverge: they agree on a common prefix and then take different indices *)
+Definition diverge (q p : list nat) : Prop :=
+  exists pre a b q' p', q = pre ++ a :: q' /\ p = pre ++ b :: p' /\ a <> b.
+
+Theorem nset_get path : forall item x x', nset path item x = Ok x' -> nget path x' = Ok item.
+Proof.
+  induction path as [|b p IH]; intros item x x' H; [discriminate|].
+  apply nset_cons_inv in H. destruct H as [l [c' [-> [L [-> [[-> ->]|[Hp [c [Hc Hs]]]]]]]]].
+  - simpl. rewrite nth_error_replace_same by exact L. reflexivity.
+  - cbn [nget]. rewrite nth_error_replace_same by exact L. eapply IH. exact Hs.
+Qed.
+
+Theorem nset_diverge : forall pre a b q' p' item x x', a <> b ->
+  nset (pre ++ b :: p') item x = Ok x' -> nget (pre ++ a :: q') x' = nget (pre ++ a :: q') x.
+Proof.
+  induction pre as [|k pre IH]; intros a b q' p' item x x' N H.
+  - cbn [app] in *. apply nset_cons_inv in H. destruct H as [l [c' [-> [L [-> _]]]]].
+    cbn [nget]. rewrite nth_error_replace_other by assumption. reflexivity.
+  - cbn [app] in *. apply nset_cons_inv in H. destruct H as [l [c' [-> [L [-> [[Hp _]|[_ [c [Hc Hs]]]]]]]]].
+    + destruct pre; discriminate.
+    + cbn [nget]. rewrite nth_error_replace_same by exact L. rewrite Hc. eapply IH; eassumption.
+Qed.
+
+Theorem nset_spec path item x x' : nset path item x = Ok x' ->
+  nget path x' = Ok item /\ forall q, diverge q path -> nget q x' = nget q x.
+Proof.
+  intros H. split; [eapply nset_get; exact H|].
+  intros q [pre [a [b [q' [p' [-> [-> N]]]]]]]. eapply nset_diverge; eassumption.
+Qed.
+
+(* nset succeeds exactly when the path is non-empty and can be read *)
+Theorem nset_ok_iff path item : forall x, (exists x', nset path item x = Ok x') <-> (path <> [] /\ exists y, nget path x = Ok y).
+Proof.
+  induction path as [|b p IH]; intros x.
+  - split; [intros [x' H]; discriminate|intros [H _]; congruence].
+  - split.
+    + intros [x' H]. split; [discriminate|]. apply nset_cons_inv in H.
+      destruct H as [l [c' [-> [L [-> [[-> ->]|[Hp [c [Hc Hs]]]]]]]]].
+      * cbn [nget]. destruct (nth_error l b) as [c|] eqn:E; [exists c; reflexivity|]. apply nth_error_None in E. lia.
+      * cbn [nget]. rewrite Hc. apply IH. exists c'. exact Hs.
+    + intros [_ [y H]]. destruct x as [z|l]; [discriminate|]. cbn [nget] in H.
+      destruct (nth_error l b) as [c|] eqn:E; [|discriminate].
+      assert (L : (b < length l)%nat) by (apply nth_error_Some; congruence).
+      destruct p as [|j r].
+      * simpl. destruct (Nat.ltb_spec b (length l)); [eexists; reflexivity|lia].
+      * destruct (proj2 (IH c)) as [c' Hc']; [split; [discriminate|exists y; exact H]|].
+        exists (NList (replace_at b c' l)). rewrite nset_cons2, E, Hc'. reflexivity.
+Qed.
+
+Lemma ndel_cons_inv b p x x' : ndel (b :: p) x = Ok x' ->
+  exists l, x = NList l /\ (b < length l)%nat /\
+    ((p = [] /\ x' = NList (firstn b l ++ skipn (S b) l)) \/
+     (p <> [] /\ exists c c', nth_error l b = Some c /\ ndel p c = Ok c' /\ x' = NList (replace_at b c' l))).
+Proof.
+  destruct p as [|j r]; [simpl|rewrite ndel_cons2]; intros H; destruct x as [z|l]; try discriminate.
+  - destruct (Nat.ltb_spec b (length l)) as [L|L]; [|discriminate]. injection H as <-.
+    exists l. repeat split; auto.
+  - destruct (nth_error l b) as [c|] eqn:E; [|discriminate].
+    assert (L : (b < length l)%nat) by (apply nth_error_Some; congruence).
+    destruct (ndel (j :: r) c) as [c'|k] eqn:Ec; [|discriminate]. simpl in H. injection H as <-.
+    exists l. repeat split; auto. right. split; [discriminate|]. exists c, c'. repeat split; auto.
+Qed.
+
+(* deleting position i of the list found at path p: that list loses exactly its i-th element, and
+   everything reached by a path diverging from p is unchanged *)
+Theorem ndel_spec : forall p i x x', ndel (p ++ [i]) x = Ok x' ->
+  exists l, nget p x = Ok (NList l) /\ (i < length l)%nat /\
+    nget p x' = Ok (NList (firstn i l ++ skipn (S i) l)) /\
+    forall q, diverge q p -> nget q x' = nget q x.
+Proof.
+  induction p as [|k p IH]; intros i x x' H.
+  - cbn [app] in H. apply ndel_cons_inv in H. destruct H as [l [-> [L [[_ ->]|[Hp _]]]]]; [|congruence].
+    exists l. repeat split; auto. intros q [pre [a [b [q' [p' [_ [Hp _]]]]]]]. destruct pre; discriminate.
+  - cbn [app] in H. apply ndel_cons_inv in H. destruct H as [l [-> [L [[Hp _]|[_ [c [c' [Hc [Hd ->]]]]]]]]].
+    + destruct p; discriminate.
+    + destruct (IH i c c' Hd) as [l' [G1 [G2 [G3 G4]]]]. exists l'. cbn [nget].
+      rewrite nth_error_replace_same by exact L. rewrite Hc. repeat split; auto.
+      intros q [pre [a [b [q' [p' [-> [Hp N]]]]]]]. destruct pre as [|k' pre].
+      * cbn [app] in *. injection Hp as <- ->. cbn [nget]. rewrite nth_error_replace_other by auto. reflexivity.
+      * cbn [app] in *. injection Hp as <- ->. cbn [nget]. rewrite nth_error_replace_same by exact L. rewrite Hc.
+        apply G4. exists pre, a, b, q', p'. auto.
+Qed.
+
+(* ndel succeeds exactly when the path is non-empty and can be read *)
+Theorem ndel_total p i x l : nget p x = Ok (NList l) -> (i < length l)%nat -> exists x', ndel (p ++ [i]) x = Ok x'.
+Proof.
+  revert x. induction p as [|k p IH]; intros x H L.
+  - simpl in H. injection H as ->. simpl. destruct (Nat.ltb_spec i (length l)); [eexists; reflexivity|lia].
+  - destruct x as [z|l0]; [discriminate|]. cbn [nget] in H. destruct (nth_error l0 k) as [c|] eqn:E; [|discriminate].
+    destruct (IH c H L) as [c' Hc']. exists (NList (replace_at k c' l0)).
+    cbn [app]. destruct (p ++ [i]) as [|j r] eqn:Ep; [destruct p; discriminate|].
+    rewrite ndel_cons2, E, Hc'. reflexivity.
+Qed.
+
+(* error kinds at the last step *)
+Lemma nset_index_error p i item x l : nget p x = Ok (NList l) -> (length l <= i)%nat ->
+  nset (p ++ [i]) item x = Err EIndexError /\ ndel (p ++ [i]) x = Err EIndexError.
+Proof.
+  revert x. induction p as [|k p IH]; intros x H L.
+  - simpl in H. injection H as ->. simpl. destruct (Nat.ltb_spec i (length l)); [lia|split; reflexivity].
+  - destruct x as [z|l0]; [discriminate|]. cbn [nget] in H. destruct (nth_error l0 k) as [c|] eqn:E; [|discriminate].
+    destruct (IH c H L) as [H1 H2]. cbn [app]. destruct (p ++ [i]) as [|j r] eqn:Ep; [destruct p; discriminate|].
+    rewrite nset_cons2, ndel_cons2, E, H1, H2. split; reflexivity.
+Qed.
+Lemma nset_empty_path item x : nset [] item x = Err EIndexError /\ ndel [] x = Err EIndexError.
+Proof. split; reflexivity. Qed.
+
+Definition nex : nest := NList [NAtom 1; NList [NAtom 2; NList [NAtom 3; NAtom 4]; NAtom 5]; NAtom 6].
+Example nested_ex :
+  nget [1; 1; 0]%nat nex = Ok (NAtom 3) /\ chain [1; 1; 0]%nat nex = Some (NAtom 3) /\
+  nget [0; 0]%nat nex = Err ETypeError /\ nget [1; 3]%nat nex = Err EIndexError /\
+  nset [1; 1; 0]%nat (NAtom 9) nex = Ok (NList [NAtom 1; NList [NAtom 2; NList [NAtom 9; NAtom 4]; NAtom 5]; NAtom 6]) /\
+  ndel [1; 1]%nat nex = Ok (NList [NAtom 1; NList [NAtom 2; NAtom 5]; NAtom 6]) /\
+  nset [1; 3]%nat (NAtom 9) nex = Err EIndexError /\ ndel [0; 0]%nat nex = Err EAttributeError.
+Proof. repeat split. Qed.
+
+(* ================================================================ 7. combinations with replacement, find_sums *)
+Lemma cwr_0 l : cwr l 0 = [[]].
+Proof. destruct l; reflexivity. Qed.
+Lemma cwr_nil k : cwr [] (S k) = [].
+Proof. reflexivity. Qed.
+Lemma cwr_cons x r k : cwr (x :: r) (S k) = map (fun c => x :: c) (cwr (x :: r) k) ++ cwr r (S k).
+Proof. reflexivity. Qed.
+
+(* c is a subsequence-with-repetition of the numbers: it is read off left to right, every position may
+   be used any number of times *)
+Inductive swr : list Z -> list Z -> Prop :=
+| swr_nil l : swr l []
+| swr_take x r c : swr (x :: r) c -> swr (x :: r) (x :: c)
+| swr_skip x r c : swr r c -> swr (x :: r) c.
+
+Lemma swr_nil_inv c : swr [] c -> c = [].
+Proof. intros H. inversion H. reflexivity. Qed.
+
+(* general characterisation (any numbers, duplicates allowed) *)
+Theorem cwr_swr : forall k l c, In c (cwr l k) <-> length c = k /\ swr l c.
+Proof.
+  induction k as [|k IHk]; intros l c.
+  - rewrite cwr_0. simpl. split.
+    + intros [<-|[]]. split; [reflexivity|constructor].
+    + intros [H _]. left. destruct c; [reflexivity|discriminate].
+  - induction l as [|x r IHl].
+    + rewrite cwr_nil. simpl. split; [tauto|]. intros [H1 H2]. apply swr_nil_inv in H2. subst. discriminate.
+    + rewrite cwr_cons, in_app_iff, in_map_iff. split.
+      * intros [[c0 [<- H]]|H].
+        -- apply IHk in H. destruct H as [H1 H2]. split; [simpl; lia|]. constructor. exact H2.
+        -- apply IHl in H. destruct H as [H1 H2]. split; [exact H1|]. apply swr_skip. exact H2.
+      * intros [H1 H2]. inversion H2 as [? E1|? ? c0 H3 E1 E2|? ? ? H3 E1 E2]; subst.
+        -- discriminate.
+        -- left. exists c0. split; [reflexivity|]. apply IHk. split; [simpl in H1; lia|exact H3].
+        -- right. apply IHl. split; assumption.
+Qed.
+
+Lemma swr_incl l c : swr l c -> forall z, In z c -> In z l.
+Proof.
+  induction 1 as [l|x r c H IH|x r c H IH]; intros z Hz.
+  - destruct Hz.
+  - destruct Hz as [<-|Hz]; [left; reflexivity|apply IH; exact Hz].
+  - right. apply IH. exact Hz.
+Qed.
+
+Lemma swr_sorted l c : ssorted l -> swr l c -> sorted c.
+Proof.
+  intros Hl H. induction H as [l|x r c H IH|x r c H IH].
+  - exact I.
+  - split; [|apply IH; exact Hl]. intros y Hy. apply (swr_incl _ _ H) in Hy.
+    destruct Hy as [<-|Hy]; [lia|]. destruct Hl as [Hl _]. specialize (Hl y Hy). lia.
+  - apply IH. destruct Hl as [_ Hl]. exact Hl.
+Qed.
+
+Lemma sorted_incl_swr : forall l, ssorted l -> forall c, sorted c -> (forall z, In z c -> In z l) -> swr l c.
+Proof.
+  induction l as [|x r IHl]; intros Hl c.
+  - intros _ Hi. destruct c as [|y c]; [constructor|]. destruct (Hi y (or_introl eq_refl)).
+  - induction c as [|y c IHc]; intros Hc Hi; [constructor|].
+    destruct Hc as [Hc1 Hc2]. destruct Hl as [Hl1 Hl2].
+    destruct (Hi y (or_introl eq_refl)) as [<-|Hy].
+    + apply swr_take. apply IHc; [exact Hc2|]. intros z Hz. apply Hi. right. exact Hz.
+    + apply swr_skip. apply IHl; [exact Hl2|split; assumption|].
+      intros z Hz. assert (Hxz : x < z).
+      { specialize (Hl1 y Hy). destruct Hz as [<-|Hz]; [lia|]. specialize (Hc1 z Hz). lia. }
+      destruct (Hi z Hz) as [<-|Hr]; [lia|exact Hr].
+Qed.
+
+(* for strictly ascending numbers: exactly the ascending lists of length k over the numbers *)
+Theorem cwr_spec numbers k c : Sorted Z.lt numbers ->
+  (In c (cwr numbers k) <-> length c = k /\ Sorted Z.le c /\ forall x, In x c -> In x numbers).
+Proof.
+  intros Hn. apply ssorted_Sorted in Hn. rewrite cwr_swr, <- sorted_Sorted. split.
+  - intros [H1 H2]. split; [exact H1|]. split; [eapply swr_sorted; eassumption|apply swr_incl; exact H2].
+  - intros [H1 [H2 H3]]. split; [exact H1|]. apply sorted_incl_swr; assumption.
+Qed.
+
+Lemma NoDup_app_intro {X} (l1 l2 : list X) :
+  NoDup l1 -> NoDup l2 -> (forall x, In x l1 -> ~ In x l2) -> NoDup (l1 ++ l2).
+Proof.
+  induction l1 as [|a l1 IH]; intros H1 H2 Hd; [exact H2|]. inversion H1 as [|? ? Ha Hl1]; subst.
+  simpl. constructor.
+  - rewrite in_app_iff. intros [H|H]; [contradiction|]. apply (Hd a); [left; reflexivity|exact H].
+  - apply IH; [exact Hl1|exact H2|]. intros x Hx. apply Hd. right. exact Hx.
+Qed.
+Lemma NoDup_map_cons (x : Z) (l : list (list Z)) : NoDup l -> NoDup (map (fun c => x :: c) l).
+Proof.
+  induction 1 as [|c l Hc Hl IH]; simpl; constructor; [|exact IH].
+  rewrite in_map_iff. intros [c0 [E Hin]]. injection E as ->. contradiction.
+Qed.
+
+(* no combination is listed twice as soon as the numbers are pairwise different *)
+Theorem cwr_NoDup : forall k numbers, NoDup numbers -> NoDup (cwr numbers k).
+Proof.
+  induction k as [|k IHk]; intros l Hl.
+  - rewrite cwr_0. constructor; [simpl; tauto|constructor].
+  - induction l as [|x r IHl]; [rewrite cwr_nil; constructor|].
+    rewrite cwr_cons. inversion Hl as [|? ? Hx Hr]; subst. apply NoDup_app_intro.
+    + apply NoDup_map_cons. apply IHk. exact Hl.
+    + apply IHl. exact Hr.
+    + intros c Hc Hc'. apply in_map_iff in Hc. destruct Hc as [c0 [<- _]].
+      apply cwr_swr in Hc'. destruct Hc' as [_ Hs]. apply Hx. apply (swr_incl _ _ Hs). left. reflexivity.
+Qed.
+Corollary cwr_NoDup_sorted k numbers : Sorted Z.lt numbers -> NoDup (cwr numbers k).
+Proof. intros H. apply cwr_NoDup, ssorted_NoDup, ssorted_Sorted. exact H. Qed.
+
+(* find_numbers_which_sums_up_to: exactly the multisets (as ascending lists) of the allowed sizes over
+   the allowed numbers with the given sum *)
+Theorem find_sums_spec t numbers counts c : Sorted Z.lt numbers ->
+  (In c (find_sums t numbers counts) <->
+   In (length c) counts /\ Sorted Z.le c /\ (forall x, In x c -> In x numbers) /\ zsum c = t).
+Proof.
+  intros Hn. unfold find_sums. rewrite in_flat_map. split.
+  - intros [k [Hk Hc]]. apply filter_In in Hc. destruct Hc as [Hc Hs].
+    apply (cwr_spec numbers k c Hn) in Hc. destruct Hc as [<- [H2 H3]]. repeat split; auto. lia.
+  - intros [H1 [H2 [H3 H4]]]. exists (length c). split; [exact H1|]. apply filter_In. split; [|lia].
+    apply (cwr_spec numbers (length c) c Hn). auto.
+Qed.
+
+(* each solution is listed once per occurrence of its size in `counts` *)
+Theorem find_sums_NoDup t numbers counts : Sorted Z.lt numbers -> NoDup counts -> NoDup (find_sums t numbers counts).
+Proof.
+  intros Hn. unfold find_sums. induction counts as [|k ks IH]; intros Hc; [constructor|].
+  inversion Hc as [|? ? Hk Hks]; subst. cbn [flat_map]. apply NoDup_app_intro.
+  - apply NoDup_filter, cwr_NoDup_sorted. exact Hn.
+  - apply IH. exact Hks.
+  - intros c H1 H2. apply filter_In in H1. destruct H1 as [H1 _]. apply cwr_swr in H1. destruct H1 as [H1 _].
+    apply in_flat_map in H2. destruct H2 as [k' [Hk' H2]]. apply filter_In in H2. destruct H2 as [H2 _].
+    apply cwr_swr in H2. destruct H2 as [H2 _]. subst. contradiction.
+Qed.
+
+Lemma default_numbers_sorted t : Sorted Z.lt (default_numbers t).
+Proof.
+  unfold default_numbers. generalize 1%nat. induction (Z.to_nat t) as [|n IH]; intros s; simpl; [constructor|].
+  constructor; [apply IH|]. destruct n; simpl; constructor. lia.
+Qed.
+
+Example cwr_ex :
+  cwr [1; 2; 3] 2 = [[1; 1]; [1; 2]; [1; 3]; [2; 2]; [2; 3]; [3; 3]] /\
+  find_sums 4 (default_numbers 4) (default_counts 4) = [[4]; [1; 3]; [2; 2]; [1; 1; 2]; [1; 1; 1; 1]] /\
+  find_sums 5 [1; 2; 4] [2; 3]%nat = [[1; 4]; [1; 2; 2]] /\
+  (* duplicate numbers are distinct positions for itertools: the same multiset is then listed more than once *)
+  cwr [1; 1] 2 = [[1; 1]; [1; 1]; [1; 1]].
+Proof. vm_compute. repeat split. Qed.
+
+(* ================================================================ assumptions *)
+Print Assumptions lazy_returns_f.
+Print Assumptions lazy_recompute_exactly.
+Print Assumptions lazy_force_always.
+Print Assumptions sss_total.
+Print Assumptions sss_ratios.
+Print Assumptions sss_zero_sum.
+Print Assumptions accumulate_spec.
+Print Assumptions cyclic_perms_exact.
+Print Assumptions cyclic_perms_nth.
+Print Assumptions rotate_perm.
+Print Assumptions uniqify_spec.
+Print Assumptions chronon_to_attribute_spec.
+Print Assumptions dict_to_keyword_argument_spec.
+Print Assumptions dict_to_chronon_spec.
+Print Assumptions dict_to_chronon_unique.
+Print Assumptions find_closest_is_argmin.
+Print Assumptions find_closest_first_occurrence.
+Print Assumptions find_closest_tie_right.
+Print Assumptions find_closest_total.
+Print Assumptions nget_chain.
+Print Assumptions nset_spec.
+Print Assumptions nset_ok_iff.
+Print Assumptions ndel_spec.
+Print Assumptions ndel_total.
+Print Assumptions cwr_swr.
+Print Assumptions cwr_spec.
+Print Assumptions cwr_NoDup.
+Print Assumptions find_sums_spec.
+Print Assumptions find_sums_NoDup.
